@@ -34,7 +34,7 @@ def cases(draw, name, max_len):
     case = draw(base_case(name, max_len=max_len))
     for src in case["srcs"]:
         src["fl"] = draw(st.sampled_from(["list", "iter", "agen", "list", "iter", "agen", "tuple", "tuplesub", "seq",
-                                           "reiter", "areiter", "aproxy", "sgen", "sgen", "ringlist"]))
+                                           "reiter", "areiter", "aproxy", "sgen", "sgen", "ringlist", "iter_noasync", "iter_hint0"]))
         src["falsy"] = draw(st.integers(0, 3)) == 0  # (class-based flavours only: the object is falsy)
     for spec in case["fns"].values():
         spec["fl"] = draw(st.sampled_from(["def", "async", "def", "async", "eqobj", "unhashobj", "aeqobj"]))
@@ -55,7 +55,7 @@ def cases_large(draw, name):
     case = draw(base_case(name, max_len=30, min_len=12))
     for src in case["srcs"]:
         src["fl"] = draw(st.sampled_from(["list", "iter", "agen", "list", "iter", "agen", "tuple", "tuplesub", "seq",
-                                           "reiter", "areiter", "aproxy", "sgen", "sgen", "ringlist"]))
+                                           "reiter", "areiter", "aproxy", "sgen", "sgen", "ringlist", "iter_noasync", "iter_hint0"]))
         src["falsy"] = draw(st.integers(0, 3)) == 0  # (class-based flavours only: the object is falsy)
     for spec in case["fns"].values():
         spec["fl"] = draw(st.sampled_from(["def", "async", "def", "async", "eqobj", "unhashobj", "aeqobj"]))
